@@ -52,7 +52,7 @@ CHECKS = {
              "loop; 'Elect pending' re-elects pending candidates). meek-prf count() is verified in the thorough tier only (161 obligations "
              "incl. the variant of the iteration loop; generation takes ~30 min); in the quick tier it, and the upper bound 'not more than "
              "the seats' for every rule, are covered by the bounded stand-in only.",
-        design_ref='DESIGN 6/C01, 11.6',
+        design_ref='DESIGN 6/C01, 11.S, 11.x',
         note=COMMON_NOTE + "Assumed: the election model of candidates.py selectors (Candidates.select/hopeful/... as abstract "
              "lists with ghost cardinalities nH,nE,nD,nW,nP updated at every status write: card-update lemma), the C15 post-parse "
              "invariant of rankings, trusted contracts of batchDefeat (wigm-prf, cfer) and findCertainLosers (mpls) (bounded stand-in). The select model is itself checked against the real body (8 POST obligations). "
@@ -70,7 +70,7 @@ CHECKS = {
              "defeat / unpend call site) tallies + non-transferable total <= ballots cast (== under exact arithmetic); no tally and "
              "no non-transferable total is negative; loop invariants of every ballot sweep (what is credited is exactly the value "
              "leaving the excluded candidate's pile / at most value x surplus / tally for a surplus). Step contracts: transfer() of "
-             "wigm, wigm-prf, cfer, scotland, Ballot.advance, Ballot.vote. Meek / Warren: distributeVotes() leaves tallies + residual "
+             "wigm, wigm-prf, cfer, scotland, mpls, Candidate.addVote / zeroVote, Ballot.advance, Ballot.vote. Meek / Warren: distributeVotes() leaves tallies + residual "
              "== ballots exactly (strict rankings). Batch exclusions (sure losers, 10059(k), write-ins) are covered through the sum of the piles "
              "over the batch. Loss accounting: at every recorded step either nothing was lost since the previous one (no surplus transfer in "
              "between; always under exact arithmetic) or the surplus transfer lost less than one unit per truncation and ballot paper. "
@@ -99,7 +99,7 @@ CHECKS = {
         category='proof',
         text="transfer(): the ballot moves to the first hopeful candidate of its ranking, every candidate passed over is not "
              "hopeful (loop invariant + variant), exactly its value is credited and the value it carries moves with it (ghost pile "
-             "G). Inside the verified count() bodies of wigm, wigm-prf, scotland, mpls: at every store to a ballot's weight the "
+             "G). Inside the verified count() bodies of wigm, wigm-prf, cfer, scotland, mpls: at every store to a ballot's weight the "
              "new value is in [0, old], new x tally <= old x surplus (rounded down, never up) and short of it by less than one unit per "
              "truncation (exactly equal under exact arithmetic). Main-loop invariants of wigm, wigm-prf(-batch), cfer(-batch), scotland, mpls: every continuing "
              "candidate's tally equals the value of the ballots standing with that candidate (W6, ghost piles), a candidate whose "
